@@ -3,6 +3,7 @@ import QuantemModel.Model.Serialize
 import QuantemModel.Core.SerializeJson
 import QuantemModel.Model.SeqKeys
 import QuantemModel.Model.SerializeExt
+import QuantemModel.Model.SerializeStoreExt
 import QuantemModel.Generated.SerializeDispatch
 open Lean QuantemModel QuantemModel.Proto QuantemModel.Serialize
 
@@ -64,6 +65,21 @@ def houtToJson : HOut → Json
   | .loaded v => Json.mkObj [("loaded", valToJson v)]
   | .printed => Json.mkObj [("printed", Json.bool true)]
 
+/-- entry kinds of `Model/SaveInstall.lean` by name -/
+def entOfStr : String → Except String SaveInstall.Ent
+  | "none" => pure none
+  | "file" => pure (some .file)
+  | "emptydir" => pure (some (.dir true))
+  | "dir" => pure (some (.dir false))
+  | "link-dir" => pure (some (.link true false))
+  | "link-file" => pure (some (.link false false))
+  | "link-dangling" => pure (some (.link false true))
+  | k => throw s!"entry kind {k}"
+
+def kindName : SaveInstall.Kind → String
+  | .file => "file" | .dir true => "emptydir" | .dir false => "dir"
+  | .link true false => "link-dir" | .link false false => "link-file" | .link _ true => "link-dangling"
+
 def step (st : Unit) (j : Json) : Unit × Json :=
   match (do
     let op ← strField j "op"
@@ -86,6 +102,21 @@ def step (st : Unit) (j : Json) : Unit × Json :=
         match resolveSave (fun _ => ex) a with
         | .ok (store, path) => pure (okJson (Json.arr #[Json.str store, Json.str path]))
         | .error e => pure (errJson (callErrName e))
+    | "saveonto" =>
+        -- one save() end to end onto a target holding an entry of the given kind (growth 6, Model/SerializeStoreExt.lean):
+        -- argument checks + encode + _install(); then load() from what is at the target
+        let a ← saveArgsOfJson j
+        let v ← valOfJson (← field j "v")
+        let ent ← entOfStr (← strField j "pre")
+        let pre : Option Slot := ent.map fun k => { kind := k, content := none }
+        match saveOnto pre v a with
+        | .error (.call e) => pure (errJson (callErrName e))
+        | .error (.os e) => pure (errJson e)
+        | .ok post =>
+            let kind := match post with | some s => kindName s.kind | none => "none"
+            match loadFrom post with
+            | .ok r => pure (okJson (Json.mkObj [("kind", Json.str kind), ("loaded", valToJson r)]))
+            | .error _ => pure (okJson (Json.mkObj [("kind", Json.str kind), ("loaded", Json.null)]))
     | "numeric" =>
         -- `_is_numeric_scalar` on the isinstance facts of a value
         let f : NumFeat := { isArrayLike := (← boolField j "arraylike"), isPyNumber := (← boolField j "pynumber"), isNpReal := (← boolField j "npreal") }
